@@ -206,5 +206,5 @@ def body_patharg(case):
 def tests(tier):
     return [
         TestSpec("spelled-spec", gen_case, body, {"quick": 40, "thorough": 24000}, factors=SHAPES, tape=1024, fuzz={"thorough": 60000}),
-        TestSpec("path-args", gen_patharg, body_patharg, {"quick": 1500, "thorough": 150000}, tape=768),
+        TestSpec("path-args", gen_patharg, body_patharg, {"quick": 1500, "thorough": 150000}, tape=768, fuzz={"thorough": 40000}),
     ]
